@@ -16,6 +16,9 @@ CLAIMED = {
  "C05": dict(technique="property-based testing of call sequences against an intents model (entry-path metamorphic equality, refusal/no-op rule), with an enumerated kind x path x representation core",
              text="Every record kind is created through every entry path with every representation of every formal argument (exhaustively for single records, randomly in sequences with add_attributes / set_time / add_asserted_type / re-adds); after each step every record must equal the path-independent model, hold single QualifiedName/datetime formal values, refuse a different second formal value with ProvException without changing, and ignore a repeated one.",
              note="Trusted: the intents model; valid lexical forms only for native-typed literals. Sequences bounded to 8 ops after a fixed 9-op setup.", ref="4 C05"),
+ "C08": dict(technique="property-based testing against a reference unification computed from abstract content (collision-biased generator), plus idempotence and purity relations",
+             text="Recipes with forced identifier collisions (same kind with equal / subset / conflicting formal arguments, other kinds, other prefixes, inside bundles) are unified by the library and by a reference implementation over the intents; raise/no-raise, ordered strict content, bundle identifiers, idempotence, novelty of the result and immutability of the source are compared, for ProvDocument.unified() and ProvBundle.unified().",
+             note="Trusted: the reference unification (60 lines over abstract content). Multi-member memberships (compatibility path) are outside the claim and discarded with a counter.", ref="4 C08"),
 }
 PENDING_REASON = "check not built yet in this round (design in DESIGN.md section 4); not claimed until the check exists and is quiet on the unchanged tree"
 checks = []
